@@ -129,6 +129,18 @@ def find_lambda(mod, lineno, code=None):
         c2 = [n for n in cands if n.lineno == lineno]
         if c2:
             cands = c2
+    if code is not None and len(cands) > 1 and hasattr(code, 'co_positions'):
+        # several lambdas with the same parameters on one line: the instructions of this code object lie inside
+        # the body of the lambda it was compiled from
+        pos = [p for p in code.co_positions() if None not in p and (p[2], p[3]) != (0, 0)]
+
+        def inside(n):
+            b = n.body
+            return all((b.lineno, b.col_offset) <= (l, c) and (el, ec) <= (b.end_lineno, b.end_col_offset) for (l, el, c, ec) in pos)
+
+        c2 = [n for n in cands if inside(n)] if pos else []
+        if c2:
+            cands = c2
     if not cands:
         raise SourceError(f'lambda at {mod.__name__}:{lineno} not found')
     # innermost
